@@ -703,9 +703,11 @@ private:
 	// cst is either linear_constraint or reference_constraint
         auto cst = *(csts.begin());
         env.set(x, typename BoolToCstEnv::mapped_type(cst.negate()));
-      } else if (csts.size() > 1) { 
+      } else {
 	// we do not negate multiple conjunctions because it would
-	// become a disjunction so we give up
+	// become a disjunction so we give up. If nothing is known
+	// about y then nothing is known about x either: in both cases
+	// the constraints of the old value of x must go.
         env -= x;
       }
     }
